@@ -183,6 +183,13 @@ class ViewpointReorienter:
             quads["top"].get_common_point(quads["back"], quads["left"]),
         ]
 
+        # with dubiously aligned faces, the greedy choice above can pair up triangles of
+        # different sides and name a corner twice; fail rather than overwrite the operation with that
+        for i, point_1 in enumerate(sorted_points):
+            for point_2 in sorted_points[i + 1 :]:
+                if f.norm(point_1 - point_2) < constants.TOL:
+                    raise DegenerateGeometryError("Sides are not clearly aligned with the viewpoint: a corner was found twice!")
+
         for i, point in enumerate(operation.bottom_face.points):
             point.position = sorted_points[i]
 
